@@ -390,7 +390,7 @@ def gen_case(rng):
             x = [rng.uniform(-10, 10) for _ in range(n)]
         t = dyadic(rng, -4, 6, 4) if exact else rng.uniform(-5, 8)
         if op == "mean":
-            if n and rng.random() < 0.25:                    # guard region: target at / next to the current mean
+            if n and exact and rng.random() < 0.4:           # guard region (exact stream only: the sum order is not replicated)
                 m = sum(x) / n
                 t = rng.choice([m, m * (1 + 1e-7), m * (1 + 1.0000001e-7), m * (1 - 1e-7), math.nextafter(m, INF), m + 1e-9])
         elif op == "spread":
@@ -919,7 +919,7 @@ def monitor(c, res, extra):
                     continue
                 if not (lo <= y[k] <= hi):
                     bad("clipped/in-target", "entry %d = %r outside [%r, %r]" % (k, y[k], lo, hi)); break
-                if lo <= x[k] <= hi and not same_float(y[k], x[k]):
+                if lo <= x[k] <= hi and y[k] != x[k]:
                     bad("clipped/fix-conform", "entry %d = %r was inside but became %r" % (k, x[k], y[k])); break
                 if not (lo <= x[k] <= hi) and y[k] not in (lo, hi):
                     bad("clipped/clip-at-end", "entry %d: %r clipped to %r" % (k, x[k], y[k])); break
@@ -952,20 +952,20 @@ def monitor(c, res, extra):
         if n and all(isfin(v) for v in y):
             if not close(sum(y) / n, c["target"]):
                 bad("with_mean/in-target", "mean is %r, target %r" % (sum(y) / n, c["target"]))
-            idem(extra["f"], "with_mean/idempotent")
+            idem(extra["f"], "with_mean/idempotent", exact=False)    # field-true; rounding is outside the property (DESIGN 3)
     elif op == "spread":
         if n > 1 and max(x) != min(x) and all(isfin(v) for v in y):
             if not close(max(y) - min(y), c["target"]):
                 bad("with_spread/in-target", "spread is %r, target %r" % (max(y) - min(y), c["target"]))
             if c["target"] > 1e-6:
-                idem(extra["f"], "with_spread/idempotent")
+                idem(extra["f"], "with_spread/idempotent", exact=False)    # field-true; rounding is outside the property (DESIGN 3)
     elif op == "norm":
         s = sum(x)
         if n and abs(s) > 1e-6 * sum(abs(v) for v in x) and all(isfin(v) for v in y):
             if not close(sum(y), c["target"]):
                 bad("normalized/in-target", "sum is %r, target %r" % (sum(y), c["target"]))
             if abs(c["target"]) > 1e-6:
-                idem(extra["f"], "normalized/idempotent")
+                idem(extra["f"], "normalized/idempotent", exact=False)    # field-true; rounding is outside the property (DESIGN 3)
     elif op == "var":
         t = extra.get("v", c["target"])
         if n > 1 and all(isfin(v) for v in y) and max(x) != min(x):
